@@ -524,6 +524,12 @@ func (s *snapper) fill(n *Snap, v reflect.Value, depth int) *Snap {
 			save()
 			return n
 		}
+		if pol == polSkip && t.PkgPath() == "sync/atomic" {
+			// a package-level atomic integer / flag is not compared (synchronised state), but it is put back:
+			// what one sequence stored there must not be what the next sequence starts from
+			save()
+			return n
+		}
 		if pol == polSkip || pol == polOpaque {
 			n.skip = true
 			return n
